@@ -928,13 +928,13 @@ int main(int argc, char **argv)
       std::vector<job> jobs;
       for (auto &o : split(a[2], ';'))
         jobs.push_back(job{split(o, ','), atoi(a[1].c_str()), "", 0});
-      static volatile int go;
-      go = 0;
+      static int go;
+      __atomic_store_n(&go, 0, __ATOMIC_SEQ_CST);
       std::vector<pthread_t> th(jobs.size());
       for (size_t i = 0; i < jobs.size(); ++i)
         pthread_create(&th[i], NULL, [](void *p) -> void * {
           job *j = (job *)p;
-          while (!go)
+          while (!__atomic_load_n(&go, __ATOMIC_SEQ_CST))
             ;
           for (int k = 0; k < j->iter; ++k)
           {
@@ -946,7 +946,7 @@ int main(int argc, char **argv)
               j->diff++;
           }
           return NULL; }, &jobs[i]);
-      go = 1;
+      __atomic_store_n(&go, 1, __ATOMIC_SEQ_CST);
       std::string r;
       for (size_t i = 0; i < jobs.size(); ++i)
       {
